@@ -1014,6 +1014,7 @@ class state_machine_base : public FrontEnd
     void on_entry(Event const& event, Fsm& fsm)
     {
         entry_processing_guard guard{m_event_processing};
+        m_history.reset_event_pool(self(), event);
         preprocess_entry(event, fsm);
 
         state_entry_visitor<Event> visitor{self(), event};
@@ -1026,12 +1027,17 @@ class state_machine_base : public FrontEnd
     void on_explicit_entry(Event const& event, Fsm& fsm)
     {
         entry_processing_guard guard{m_event_processing};
-        preprocess_entry(event, fsm);
 
         using state_identities =
             mp11::mp_transform<mp11::mp_identity, TargetStates>;
         static constexpr bool all_regions_defined =
             mp11::mp_size<state_identities>::value == nr_regions;
+
+        if constexpr (!all_regions_defined)
+        {
+            m_history.reset_event_pool(self(), event);
+        }
+        preprocess_entry(event, fsm);
 
         // First set all active state ids...
         if constexpr (!all_regions_defined)
